@@ -5,13 +5,25 @@ from harness.impl import emit, protect_stdout
 from floogen.model.routing import RouteMap, RouteMapRule, AddrRange, SimpleId
 
 
+def mk_range(i, d, s, e):
+    """the three ways a range reaches a table: start/end, start/size, base/size/idx (mode chosen by the rule's content and
+    position, so that a replay reproduces it)"""
+    mode = (i + d + s + e) % 3
+    if mode == 0 or e <= s:
+        return AddrRange(start=s, end=e)
+    if mode == 1:
+        return AddrRange(start=s, size=e - s)
+    k = min(s // (e - s), 1 + (s % 3))
+    return AddrRange(base=s - k * (e - s), size=e - s, idx=k)
+
+
 def main():
     protect_stdout()
     for line in sys.stdin:
         rules = json.loads(line)
         try:
             rm = RouteMap(name="t", rules=[
-                RouteMapRule(dest=SimpleId(id=d), addr_range=AddrRange(start=s, end=e)) for d, s, e in rules])
+                RouteMapRule(dest=SimpleId(id=d), addr_range=mk_range(i, d, s, e)) for i, (d, s, e) in enumerate(rules)])
         except Exception:
             emit(([["err"], None]))
             continue
